@@ -232,7 +232,7 @@ Definition fetch (p : prog) (m : machine) : result (Z * machine) :=
     end
   end.
 
-Definition move_where (m : machine) (delta : Z) : result machine :=
+Definition move_ip (m : machine) (delta : Z) : result machine :=
   match m_frames m with
   | [] => Fault F_internal
   | (which, ip) :: fr => Ok (set_frames m ((which, ip + delta) :: fr))
@@ -441,7 +441,7 @@ Definition exec_read (p : prog) (e : env) (m0 : machine) (bytecode : Z) : step_r
             else
               match input_read e m4 inp 1 with
               | Ok (Some [b], m5) =>
-                read_nbits (Z.to_nat (32 * (remaining_bytes e m5 inp + 2))) p e m5 inp direct bigendian
+                read_nbits (Z.to_nat (32 * (Z.max 0 (remaining_bytes e m5 inp) + 2))) p e m5 inp direct bigendian
                            bw (2 ^ bw - 1) 8 0 n (if bigendian then bitswap b else b)
               | Ok (Some _, _) => Fault F_internal
               | Ok (None, m5) => stop m5 E_read_beyond
@@ -542,16 +542,16 @@ Definition exec_builtin (p : prog) (e : env) (m : machine) (bytecode : Z) : step
     match m_stack m with
     | [] => stop m E_underflow
     | v :: s => let m1 := set_stack m s in
-                if v =? 0 then match move_where m1 1 with Ok m2 => continue m2 | _ => Fault F_internal end else continue m1
+                if v =? 0 then match move_ip m1 1 with Ok m2 => continue m2 | _ => Fault F_internal end else continue m1
     end
   else if bytecode =? CODE_IF_ELSE then
     match m_stack m with
     | [] => stop m E_underflow
     | v :: s => let m1 := set_stack m s in
-                if v =? 0 then match move_where m1 1 with Ok m2 => continue m2 | _ => Fault F_internal end
+                if v =? 0 then match move_ip m1 1 with Ok m2 => continue m2 | _ => Fault F_internal end
                 else match fetch p m1 with
                      | Ok (consequent, m2) =>
-                       match move_where m2 1 with
+                       match move_ip m2 1 with
                        | Ok m3 => push_frame p m3 (consequent - BOUND_DICTIONARY)
                        | _ => Fault F_internal
                        end
@@ -569,21 +569,21 @@ Definition exec_builtin (p : prog) (e : env) (m : machine) (bytecode : Z) : step
     | _ => stop m E_underflow
     end
   else if bytecode =? CODE_AGAIN then
-    match move_where m (-2) with Ok m1 => continue m1 | _ => Fault F_internal end
+    match move_ip m (-2) with Ok m1 => continue m1 | _ => Fault F_internal end
   else if bytecode =? CODE_UNTIL then
     match m_stack m with
     | [] => stop m E_underflow
     | v :: s => let m1 := set_stack m s in
-                if v =? 0 then match move_where m1 (-2) with Ok m2 => continue m2 | _ => Fault F_internal end else continue m1
+                if v =? 0 then match move_ip m1 (-2) with Ok m2 => continue m2 | _ => Fault F_internal end else continue m1
     end
   else if bytecode =? CODE_WHILE then
     match m_stack m with
     | [] => stop m E_underflow
     | v :: s => let m1 := set_stack m s in
-                if v =? 0 then match move_where m1 1 with Ok m2 => continue m2 | _ => Fault F_internal end
+                if v =? 0 then match move_ip m1 1 with Ok m2 => continue m2 | _ => Fault F_internal end
                 else match fetch p m1 with
                      | Ok (posttest, m2) =>
-                       match move_where m2 (-3) with          (* get() does ++, then -= 2 in the source: net -2 from before *)
+                       match move_ip m2 (-3) with          (* get() does ++, then -= 2 in the source: net -2 from before *)
                        | Ok m3 => push_frame p m3 (posttest - BOUND_DICTIONARY)
                        | _ => Fault F_internal
                        end
@@ -788,14 +788,15 @@ Fixpoint drop_dos (dos : list (Z * Z * Z)) (d : Z) : list (Z * Z * Z) :=
   | [] => []
   end.
 
-Definition exec_exit (fixed single : bool) (p : prog) (m : machine) : step_result :=
+(* `as_coded_single` = single_step on the pinned tree *)
+Definition exec_exit (as_coded_single : bool) (p : prog) (m : machine) : step_result :=
   match fetch p m with
   | Ok (exitdepth, m1) =>
     if (exitdepth <? 0) || (depth m1 <? exitdepth) then Fault F_exitdepth
     else
       let m2 := set_frames m1 (skipn (Z.to_nat exitdepth) (m_frames m1)) in
       let m3 := set_dos m2 (drop_dos (m_dos m2) (depth m2)) in
-      if single && negb fixed then
+      if as_coded_single then
         (* as coded: leave the word only if its segment happens to be finished; no loop bookkeeping *)
         match segment_done p m3 with
         | Ok true => match pop_only m3 with Ok m4 => Ok (Return, m4) | _ => Fault F_internal end
@@ -803,12 +804,7 @@ Definition exec_exit (fixed single : bool) (p : prog) (m : machine) : step_resul
         | Fault k => Fault k
         | OutOfFuel => OutOfFuel
         end
-      else
-        (* goto after_end_of_segment *)
-        match pop_incr m3 with
-        | Ok (fl, m4) => Ok (if single then Return else fl, m4)
-        | other => other
-        end
+      else pop_incr m3          (* goto after_end_of_segment *)
   | Fault k => Fault k
   | OutOfFuel => OutOfFuel
   end.
@@ -831,8 +827,11 @@ Definition single_tail (fixed : bool) (p : prog) (target : Z) (m : machine) : st
     | OutOfFuel => OutOfFuel
     end.
 
-(* one pass through the body of `while (ip < length of the segment)`; requires ip < length *)
-Definition exec_instr (fixed single : bool) (p : prog) (e : env) (target : Z) (m : machine) : step_result :=
+(* the beginning of one pass through `while (ip < length of the segment)`: read the bytecode and decide
+   whether a do-loop at this recursion depth continues or ends *)
+Inductive fetched := LoopEnd (m : machine) | Instr (bytecode : Z) (m : machine).
+
+Definition fetch_instr (p : prog) (m : machine) : result fetched :=
   match m_frames m with
   | [] => Fault F_internal
   | (which, ip) :: fr =>
@@ -843,29 +842,40 @@ Definition exec_instr (fixed single : bool) (p : prog) (e : env) (target : Z) (m
       | None => Fault F_internal
       | Some bytecode =>
         let advanced := set_frames m ((which, ip + 1) :: fr) in
-        let in_loop_header :=
-          match m_dos m with
-          | (dd, dstop, di) :: dos' => if abs_depth dd =? depth m then Some (dstop <=? di, dos') else None
-          | [] => None
-          end in
-        match in_loop_header with
-        | Some (true, dos') => continue (set_dos advanced dos')            (* end the do-loop; `continue` *)
-        | other =>
-          let m1 := match other with None => advanced | Some _ => m end in
-          let r :=
-            if bytecode <? 0 then exec_read p e m1 bytecode
-            else if BOUND_DICTIONARY <=? bytecode then push_frame p m1 (bytecode - BOUND_DICTIONARY)
-            else if bytecode =? CODE_EXIT then exec_exit fixed single p m1
-            else exec_builtin p e m1 bytecode in
-          match r with
-          | Ok (Continue, m2) =>
-            if bytecode =? CODE_EXIT then r
-            else if single then single_tail fixed p target m2 else r
-          | other => other
-          end
+        match m_dos m with
+        | (dd, dstop, di) :: dos' =>
+          if abs_depth dd =? depth m then
+            if dstop <=? di then Ok (LoopEnd (set_dos advanced dos'))      (* end the do-loop; `continue` *)
+            else Ok (Instr bytecode m)                                      (* ip stays on the body *)
+          else Ok (Instr bytecode advanced)
+        | [] => Ok (Instr bytecode advanced)
         end
       end
     end
+  end.
+
+(* the instruction itself *)
+Definition exec_op (fixed single : bool) (p : prog) (e : env) (m1 : machine) (bytecode : Z) : step_result :=
+  if bytecode <? 0 then exec_read p e m1 bytecode
+  else if BOUND_DICTIONARY <=? bytecode then push_frame p m1 (bytecode - BOUND_DICTIONARY)
+  else if bytecode =? CODE_EXIT then exec_exit (single && negb fixed) p m1
+  else exec_builtin p e m1 bytecode.
+
+(* one pass through the body of the instruction loop; requires ip < length of the segment *)
+Definition exec_instr (fixed single : bool) (p : prog) (e : env) (target : Z) (m : machine) : step_result :=
+  match fetch_instr p m with
+  | Ok (LoopEnd m') => continue m'
+  | Ok (Instr bytecode m1) =>
+    match exec_op fixed single p e m1 bytecode with
+    | Ok (Continue, m2) =>
+      if single then
+        if bytecode =? CODE_EXIT then Ok (Return, m2)      (* only reached when fixed *)
+        else single_tail fixed p target m2
+      else Ok (Continue, m2)
+    | other => other
+    end
+  | Fault k => Fault k
+  | OutOfFuel => OutOfFuel
   end.
 
 (* internal_run(single_step, recursion_target_depth_top) *)
